@@ -303,8 +303,26 @@ pub fn coherence(threads: usize, ops: u64, nkeys: u8, seed: u64, cap: Option<u64
     let mut violation = None;
     'outer: for (t, evs) in all.iter().enumerate() {
         let mut last_seen: HashMap<(u8, u64), u64> = HashMap::new();
+        // values this thread saw replaced by another value of the key: (key, old) -> replacing value
+        let mut cur_val: HashMap<u8, u64> = HashMap::new();
+        let mut replaced: HashMap<(u8, u64), u64> = HashMap::new();
         for g in evs.iter().filter(|e| e.kind == 2 && e.val != 0) {
             checked += 1;
+            // a value the thread has seen replaced is superseded; once the replacing insert has
+            // completed it must not come back (every value is written by exactly one insert)
+            if let Some(r) = replaced.get(&(g.key, g.val)) {
+                if let Some(rw) = by_val.get(r) {
+                    if rw.end < g.start {
+                        violation = Some(viol("C02", format!("thread {t} get(k{}) [{}..{}] returned {:#x} again after the same thread had seen it replaced by {:#x}, whose insert [{}..{}] had completed before this get began", g.key, g.start, g.end, g.val, r, rw.start, rw.end), params.clone()));
+                        break 'outer;
+                    }
+                }
+            }
+            if let Some(prev) = cur_val.insert(g.key, g.val) {
+                if prev != g.val {
+                    replaced.insert((g.key, prev), g.val);
+                }
+            }
             let Some(w) = by_val.get(&g.val) else {
                 violation = Some(viol("C02", format!("thread {t} get(k{}) returned {:#x}, which nobody wrote", g.key, g.val), params.clone()));
                 break 'outer;
@@ -358,6 +376,103 @@ pub fn coherence(threads: usize, ops: u64, nkeys: u8, seed: u64, cap: Option<u64
     let mut classes = BTreeMap::new();
     classes.insert("get_hits_of_another_threads_value".to_string(), cross_thread_hits);
     Outcome { evaluations: checked, nontrivial: cross_thread_hits, classes, sample: params, violation }
+}
+
+// ---- C02: one writer per key, beside threads that force admissions ----------------------------
+//
+// The cache is exactly as large as the set of "owned" keys; every owned key is written by
+// exactly one thread, with increasing numbers, in round-robin visits (between two visits a
+// key drifts to the LRU end). A visit checks the key, writes it twice in a row (the first
+// write leaves an unapplied update behind while the second lands) and checks it again: the
+// thread's get(k) may only show nothing or the last value it wrote; anything else was
+// superseded by a completed insert. After its own invalidate(k) returned, get(k) may only
+// show nothing. Meanwhile other threads make fresh keys as popular as a key can get and
+// insert them, so that admissions keep evicting owned keys whose updates are still queued.
+// Valid under every interleaving.
+pub fn single_writer_under_admission(writers: usize, offerers: usize, rounds: u64, cap: u64, lookups_before_offer: u64) -> Outcome {
+    let cache: Cache<u64, u64> = Cache::builder().max_capacity(cap).build();
+    let barrier = Arc::new(Barrier::new(writers + offerers));
+    let stop = Arc::new(AtomicBool::new(false));
+    let writers_done = Arc::new(AtomicU64::new(0));
+    let bad: Arc<std::sync::Mutex<Option<String>>> = Arc::new(std::sync::Mutex::new(None));
+    let evicted_seen = Arc::new(AtomicU64::new(0));
+    let checked = Arc::new(AtomicU64::new(0));
+    let mut hs = Vec::new();
+    for t in 0..writers {
+        let (c, bar, stop, bad, ev, ck, wd) = (cache.clone(), Arc::clone(&barrier), Arc::clone(&stop), Arc::clone(&bad), Arc::clone(&evicted_seen), Arc::clone(&checked), Arc::clone(&writers_done));
+        hs.push(std::thread::spawn(move || {
+            let keys: Vec<u64> = (0..cap).filter(|k| k % writers as u64 == t as u64).collect();
+            let mut last = vec![0u64; keys.len()];
+            bar.wait();
+            'run: for r in 0..rounds {
+                for (i, &k) in keys.iter().enumerate() {
+                    if stop.load(Ordering::Relaxed) {
+                        break 'run;
+                    }
+                    let check = |expect: u64, at: &str| -> Option<String> {
+                        match c.get(&k) {
+                            Some(v) if v != expect => Some(format!("writer {t}: get(k{k}) returned {v} {at}, but the last completed insert of its only writer wrote {expect}: a superseded value")),
+                            Some(_) => None,
+                            None => {
+                                ev.fetch_add(1, Ordering::Relaxed);
+                                None
+                            }
+                        }
+                    };
+                    let mut report = None;
+                    if last[i] > 0 {
+                        report = check(last[i], "before the next write");
+                    }
+                    if report.is_none() {
+                        if r % 37 == 36 {
+                            c.invalidate(&k);
+                            if let Some(v) = c.get(&k) {
+                                report = Some(format!("writer {t}: get(k{k}) returned {v} right after its own invalidate(k{k}) had returned (no other thread writes that key)"));
+                            }
+                        }
+                    }
+                    if report.is_none() {
+                        last[i] += 1;
+                        c.insert(k, last[i]);
+                        last[i] += 1;
+                        c.insert(k, last[i]);
+                        report = check(last[i], "right after the insert");
+                    }
+                    ck.fetch_add(2, Ordering::Relaxed);
+                    if let Some(m) = report {
+                        *bad.lock().unwrap() = Some(m);
+                        stop.store(true, Ordering::Relaxed);
+                        break 'run;
+                    }
+                }
+            }
+            wd.fetch_add(1, Ordering::Relaxed);
+        }));
+    }
+    for t in 0..offerers {
+        let (c, bar, stop, wd) = (cache.clone(), Arc::clone(&barrier), Arc::clone(&stop), Arc::clone(&writers_done));
+        hs.push(std::thread::spawn(move || {
+            bar.wait();
+            let mut key = 1_000_000 * (t as u64 + 1);
+            // (the offerers work for as long as the writers do: the writers' work is fixed)
+            while !stop.load(Ordering::Relaxed) && wd.load(Ordering::Relaxed) < writers as u64 {
+                key += 1;
+                for _ in 0..lookups_before_offer {
+                    let _ = c.get(&key);
+                }
+                c.insert(key, 1);
+            }
+        }));
+    }
+    for h in hs {
+        h.join().expect("worker");
+    }
+    let params = serde_json::json!({"workload": "single_writer_under_admission", "writers": writers, "offerers": offerers, "rounds": rounds, "max_capacity": cap, "lookups_before_offer": lookups_before_offer});
+    let violation = bad.lock().unwrap().take().map(|m| viol("C02", m, params.clone()));
+    let mut classes = BTreeMap::new();
+    let ev = evicted_seen.load(Ordering::Relaxed);
+    classes.insert("own_key_found_evicted_at_a_check".to_string(), ev);
+    Outcome { evaluations: checked.load(Ordering::Relaxed), nontrivial: ev, classes, sample: params, violation }
 }
 
 // ---- C07: invalidate_all beside writers and readers (real clock) -------------------------
@@ -896,6 +1011,23 @@ pub const RULE_C02: &str = "4-16 real threads issue seeded get/insert/invalidate
 pub fn stress_worker(a: &WorkerArgs) -> WorkerResult {
     let t0 = std::time::Instant::now();
     crate::sched_hooks::uninstall();
+    // A panic on one of the workload's threads (a library assertion, an overflow check)
+    // must end the process at once: a thread that dies inside a maintenance run leaves the
+    // maintenance flag set, and the other threads would then spin on a full queue until the
+    // watchdog. The supervisor reads the marker from stderr.
+    std::panic::set_hook(Box::new(|info| {
+        let msg = if let Some(s) = info.payload().downcast_ref::<&str>() {
+            s.to_string()
+        } else if let Some(s) = info.payload().downcast_ref::<String>() {
+            s.clone()
+        } else {
+            "<non-string panic>".to_string()
+        };
+        let loc = info.location().map(|l| format!("{}:{}", l.file(), l.line())).unwrap_or_default();
+        let who = if loc.contains("/verif/harness/") { "HARNESS PANIC" } else { "LIBRARY PANIC" };
+        eprintln!("{who} under real threads at {loc}: {msg}");
+        std::process::exit(77);
+    }));
     let mut res = WorkerResult::default();
     let scale: u64 = if a.thorough { 6 } else { 1 };
     let mut add = |o: Outcome, res: &mut WorkerResult, tag: u64| {
@@ -1008,6 +1140,13 @@ pub fn stress_worker(a: &WorkerArgs) -> WorkerResult {
             let (th, nk, cap) = plans[a.idx as usize % 4];
             let o = coherence(th, 20_000 * scale, nk, x, cap);
             add(o, &mut res, 4);
+            if res.violation.is_none() {
+                // (writers, offerers, max_capacity = number of owned keys, lookups before an offer)
+                let plans: [(usize, usize, u64, u64); 4] = [(4, 4, 32, 16), (2, 2, 8, 16), (4, 2, 16, 12), (3, 3, 12, 16)];
+                let (wr, of, cap, lk) = plans[(a.idx as usize / 4) % 4];
+                let o = single_writer_under_admission(wr, of, (60_000 / cap) * scale, cap, lk);
+                add(o, &mut res, 18);
+            }
         }
         _ => {}
     }
@@ -1032,6 +1171,7 @@ pub fn replay(found: &Found) -> Option<crate::exec::Violation> {
             Some("ttl_race") => ttl_race(g("ttl_ms"), g("keys"), g("readers") as usize, g("rounds")),
             Some("mixed") => mixed_h(&found.property, g("threads") as usize, g("ops_per_thread"), g("keys") as u32, p.get("max_capacity").and_then(|v| v.as_u64()), p.get("weigher").and_then(|v| v.as_bool()).unwrap_or(false), p.get("ttl_ms").and_then(|v| v.as_u64()), g("seed"), p.get("one_shard").and_then(|v| v.as_bool()).unwrap_or(false)),
             Some("coherence") => coherence(g("threads") as usize, g("ops_per_thread"), g("keys") as u8, g("seed"), p.get("max_capacity").and_then(|v| v.as_u64())),
+            Some("single_writer_under_admission") => single_writer_under_admission(g("writers") as usize, g("offerers") as usize, g("rounds"), g("max_capacity"), g("lookups_before_offer")),
             _ => return None,
         };
         if o.violation.is_some() {
